@@ -157,3 +157,40 @@ def load_known():
         return []
     with open(KNOWN_FILE) as f:
         return json.load(f).get('findings', [])
+
+
+class Scoped:
+    """View of a Report that keeps only the obligations a predicate selects; used when a property re-uses the rules of
+    another one on the sub-set of constructs it depends on (floors of the donor module are not applicable to the sub-set)."""
+
+    def __init__(self, rep, pred):
+        self._rep, self._pred = rep, pred
+        self.extra = {}
+        self.kept = 0
+        self.tier = rep.tier
+
+    def ob(self, rule, construct, ok, detail='', file='', line=0, what=''):
+        if self._pred(rule, norm_text(construct), norm_text(what)):
+            self.kept += 1
+            return self._rep.ob(rule, construct, ok, detail, file, line, what)
+        return ok
+
+    def note(self, text):
+        pass
+
+    def floor(self, rule, minimum, what=''):
+        pass
+
+    def saw_function(self, name):
+        pass
+
+    def saw_file(self, f):
+        pass
+
+    @property
+    def obls(self):
+        return self._rep.obls
+
+    @property
+    def analysed(self):
+        return self._rep.analysed
